@@ -268,6 +268,52 @@ def kernel_wrappers_call_sites(ctx, which):
     ctx.claim("interpreter_saw_no_cross_cell_hazard", len(load.HAZARDS) == 0)
 
 
+def _structure(sim):
+    """aliasing partition of the arrays reachable from the object (which attribute paths share one root buffer)"""
+    from symsopht import graph
+
+    groups = {}
+    for f in graph.find_arrays(sim, "obj"):
+        groups.setdefault(id(graph._typed_root(f.arr)), set()).add(f.path)
+    return sorted(sorted(g) for g in groups.values() if len(g) > 1)
+
+
+@scenario
+def thread_count_selects_no_code_path(ctx, cfg):
+    """'bit-identical for any number of threads' needs more than race freedom: the thread count must not select different
+    buffers or different kernels.  The simulator is built with 1 and with 4 threads; the aliasing structure of its arrays
+    and the sequence of compiled kernels called by one step must coincide (structural claim; replay compares the same
+    structure on the real build)."""
+    from symsopht import load
+    from checks.flowstep import build_sim, run_step
+
+    sopht_modules()
+    res = []
+    for th in (1, 4):
+        c = dict(cfg, threads=th)
+        if ctx.sym:
+            load.CALL_LOG.clear()
+            load.LOG_CALLS[0] = True
+            try:
+                r = run_step(ctx, c, tag=f"t{th}_", cuts=False, trivial_fft=True)
+            finally:
+                load.LOG_CALLS[0] = False
+            calls = [call["handle"].name for call in load.CALL_LOG]
+            res.append((_structure(r["sim"]), calls))
+        else:
+            sim = build_sim(ctx, c)
+            res.append((_structure(sim), None))
+    same_struct = res[0][0] == res[1][0]
+    if ctx.sym:
+        ctx.claims.append(Claim("array_aliasing_structure_independent_of_thread_count", "unsat" if same_struct else "sat", {}, trivial=False))
+        same_calls = res[0][1] == res[1][1]
+        ctx.claims.append(Claim("kernel_call_sequence_independent_of_thread_count", "unsat" if same_calls else "sat", {}, trivial=False))
+        ctx.nfail += (not same_struct) + (not same_calls)
+    else:
+        diff = [g for g in res[0][0] if g not in res[1][0]] + [g for g in res[1][0] if g not in res[0][0]]
+        ctx.replay_result = (not same_struct, f"arrays sharing memory differ between 1 and 4 threads: {diff[:3]}" if not same_struct else "same aliasing structure with 1 and 4 threads")
+
+
 # heavy scenarios: a data-dependent branch introduced into the step forks them; keep the exploration bound small
 flow_step_call_sites.max_paths = 4
 
@@ -297,3 +343,8 @@ def schedule(chk):
         chk.add(flow_step_call_sites, cfg=c)
     for which in ("filter", "ssprk3", "poisson", "interaction"):
         chk.add(kernel_wrappers_call_sites, which=which)
+    for c in (dict(kind="ns2d", shape=(6, 7), forcing=True, free_stream=True, width=1),
+              dict(kind="ns3d", shape=(4, 4, 5), forcing=True, free_stream=False, filter=("multiplicative", 1), solver="greens_function_convolution", width=1),
+              dict(kind="ns3d", shape=(4, 4, 5), forcing=False, free_stream=True, filter=None, solver="fast_diagonalisation", width=0),
+              dict(kind="passive", shape=(5, 6, 5), field_type="vector")):
+        chk.add(thread_count_selects_no_code_path, cfg=c)
